@@ -249,7 +249,9 @@ def config_tests(tree: SourceTree, rel: str, seen=None) -> list:
 
 def flatten(tree: SourceTree, rel: str, config: dict | None = None, _depth=0) -> list:
     tmpl = load(tree, rel)
-    return _items(tree, tmpl.body, rel, config or {}, _depth)
+    # a private copy: `{% set name = <value decided by the configuration> %}` is recorded in it (see _bind) so that a later
+    # `{% if name %}` is decided exactly like the test it abbreviates
+    return _items(tree, tmpl.body, rel, dict(config or {}), _depth)
 
 
 def _macros_of(tree, rel):
@@ -258,6 +260,37 @@ def _macros_of(tree, rel):
     if rel not in cache:
         cache[rel] = {m.name: m for m in load(tree, rel).find_all(nodes.Macro)}
     return cache[rel]
+
+
+_PARAMS = "\x00macro-params"      # key of `config` holding {macro parameter: constant argument} inside a macro expansion
+
+
+def _bind(config, n):
+    """`{% set name = value %}`: when the value is decided by the configuration (a constant, `general.method in [..]`,
+    `a == b or ..`), later tests on `name` are decided too; any other assignment makes `name` undetermined again."""
+    if not isinstance(n.target, nodes.Name):
+        for x in n.target.find_all(nodes.Name):
+            config.pop(x.name, None)
+        return
+    e = jx(n.node)
+    v = _val(e, config)
+    if v is _UNK and e[0] in ("cmp", "and", "or", "not"):
+        d = decide(e, config)
+        v = _UNK if d is None else d
+    if v is _UNK:
+        config.pop(n.target.name, None)
+    else:
+        config[n.target.name] = v
+    if n.target.name in config.get(_PARAMS, {}):
+        config[_PARAMS] = {k: w for k, w in config[_PARAMS].items() if k != n.target.name}
+
+
+def _forget(config, sub):
+    """names assigned inside a body that may or may not run (undecided `if`, loop): undetermined afterwards"""
+    for b in sub:
+        for a in ([b] if isinstance(b, nodes.Assign) else []) + list(b.find_all(nodes.Assign)):
+            for x in ([a.target] if isinstance(a.target, nodes.Name) else a.target.find_all(nodes.Name)):
+                config.pop(x.name, None)
 
 
 def _items(tree, body, rel, config, depth) -> list:
@@ -269,6 +302,9 @@ def _items(tree, body, rel, config, depth) -> list:
             for c in n.nodes:
                 if isinstance(c, nodes.TemplateData):
                     out.append(("text", c.data, c.lineno, rel))
+                elif isinstance(c, nodes.Name) and isinstance(config.get(_PARAMS, {}).get(c.name), str):
+                    # `{{ param }}` of a macro called with a string literal renders that literal
+                    out.append(("text", config[_PARAMS][c.name], c.lineno, rel))
                 elif isinstance(c, nodes.Call) and isinstance(c.node, nodes.Name) and c.node.name in macros and depth < 8 and not c.dyn_args and not c.dyn_kwargs:
                     # `{{ helper(args) }}`: the macro's body with its parameters bound -- extracted template code is still this code
                     m = macros[c.node.name]
@@ -276,28 +312,41 @@ def _items(tree, body, rel, config, depth) -> list:
                     given = dict(zip(params, c.args))
                     given.update({k.key: k.value for k in c.kwargs})
                     defaults = dict(zip(params[len(params) - len(m.defaults):], m.defaults))
+                    inner = dict(config)
+                    inner[_PARAMS] = {}
                     for p_ in params:
                         v_ = given.get(p_, defaults.get(p_))
+                        inner.pop(p_, None)
                         if v_ is not None:
                             out.append(("set", ("name", p_), jx(v_), c.lineno, rel))
-                    out.extend(_items(tree, m.body, rel, config, depth + 1))
+                            if isinstance(v_, nodes.Const):
+                                inner[_PARAMS][p_] = v_.value
+                                inner[p_] = v_.value
+                    out.extend(_items(tree, m.body, rel, inner, depth + 1))
                 else:
                     out.append(("out", jx(c), c.lineno, rel))
         elif t is nodes.If:
             out.extend(_if(tree, n, rel, config, depth))
         elif t is nodes.For:
-            out.append(("for", jx(n.target), jx(n.iter), tuple(_items(tree, n.body, rel, config, depth)),
-                        tuple(_items(tree, n.else_, rel, config, depth)), n.lineno, rel, jx(n.test)))
+            inner = dict(config)
+            _forget(inner, [n])
+            for x in n.target.find_all(nodes.Name) if not isinstance(n.target, nodes.Name) else [n.target]:
+                inner.pop(x.name, None)
+            out.append(("for", jx(n.target), jx(n.iter), tuple(_items(tree, n.body, rel, dict(inner), depth)),
+                        tuple(_items(tree, n.else_, rel, dict(inner), depth)), n.lineno, rel, jx(n.test)))
         elif t is nodes.Assign:
             out.append(("set", jx(n.target), jx(n.node), n.lineno, rel))
+            _bind(config, n)
         elif t is nodes.AssignBlock:
-            out.append(("setblock", jx(n.target), tuple(_items(tree, n.body, rel, config, depth)), n.lineno, rel))
+            out.append(("setblock", jx(n.target), tuple(_items(tree, n.body, rel, dict(config), depth)), n.lineno, rel))
+            if isinstance(n.target, nodes.Name):
+                config.pop(n.target.name, None)
         elif t is nodes.Include:
             tgt = jx(n.template)
             if tgt[0] == "const" and depth < 8:
                 inc = f"{TEMPLATE_ROOT}/{tgt[1]}"
                 if tree.exists(inc):
-                    out.extend(flatten(tree, inc, config, depth + 1))
+                    out.extend(flatten(tree, inc, {k: v for k, v in config.items() if k != _PARAMS}, depth + 1))
                 elif not n.ignore_missing:
                     out.append(("other", f"include-missing:{tgt[1]}", n.lineno, rel))
             else:
@@ -333,8 +382,10 @@ def _if(tree, n, rel, config, depth) -> list:
         rest_nodes = n.else_
     if d is False:
         return _items(tree, rest_nodes, rel, config, depth)
-    return [("if", test, tuple(_items(tree, n.body, rel, config, depth)),
-             tuple(_items(tree, rest_nodes, rel, config, depth)), n.lineno, rel)]
+    res = [("if", test, tuple(_items(tree, n.body, rel, dict(config), depth)),
+            tuple(_items(tree, rest_nodes, rel, dict(config), depth)), n.lineno, rel)]
+    _forget(config, list(n.body) + list(rest_nodes))
+    return res
 
 
 def walk_items(items):
